@@ -197,6 +197,14 @@ theorem epname_roundtrip (n : List Char) (v : Ver) (hn : isQualName n = true) :
 theorem qualname_has_no_separator (n : List Char) (hn : isQualName n = true) : NoUU n :=
   isQualName_noUU n hn
 
+/-! ## a class obtained without a version cannot be subclassed -/
+
+/-- class creation is refused exactly when some base class — at any position, with any other
+bases — is a version-less (marked) handle -/
+theorem marked_base_refused (bases : List Bool) :
+    newRaises bases = true ↔ ∃ b ∈ bases, b = true := by
+  simp [newRaises]
+
 /-! ## the pinned code violated the order axioms (negative results, concrete witnesses) -/
 
 /-- With the pinned `__ge__` (falls through to `None` on equal references) `a < a` holds. -/
